@@ -42,6 +42,9 @@ def model_check(ctx):
         ctx.mc("MC_LaneletGeom", "MC_LaneletGeom4.cfg", timeout=3000)
     # non-vacuity of the route contract: without the loop guard the model must violate InvSound
     ctx.mc_expect("MC_LaneletGeom", "DEV_LaneletGeom_1.cfg", "InvSound")
+    # the center_vertices setter kept the cached distance (fixed in /repo 964ea94): the model with that deviation
+    # must violate the cache-coherence invariant
+    ctx.mc_expect("MC_LaneletGeom", "DEV_LaneletGeom_2.cfg", "HistCoherent")
 
 
 _TRIPLES = {"axis": [(1, 0, 1), (2, 0, 2), (3, 0, 3), (4, 0, 4)],
@@ -134,6 +137,25 @@ def _rand_chain_case(rng):
     return {"kind": "chain", "lanes": lanes, "range": rng.choice((1000, 1000, rng.randint(1, 30))), "src": "random"}
 
 
+def _rand_hist_case(rng):
+    """longer histories on a random lane (wedge boundaries allowed); the full query set is re-asked after every
+    mutation"""
+    fams = ["axis"] + rng.sample(["p5", "p13"], rng.randint(0, 1))
+    c = _poly((rng.randint(-5, 5), rng.randint(-5, 5)), _rand_steps(rng, rng.randint(1, 4), fams))
+    le, r = _bounds(rng, c, rng.random() < 0.5)
+    hist, nset, nmrg = [], 0, 0
+    for _ in range(rng.randint(3, 6)):
+        if rng.random() < 0.4:
+            hist.append(rng.choice(_QUERIES))
+        tok = rng.choice(list(_KIND))
+        if tok.startswith("set") and nset >= 2 or tok.startswith("mrg") and nmrg >= 2:
+            tok = rng.choice(("mv1", "mv3", "net2"))       # keeps coordinates and vertex counts small
+        nset += tok.startswith("set")
+        nmrg += tok.startswith("mrg")
+        hist.append(tok)
+    return {"kind": "hist", "base": {"l": le, "c": c, "r": r}, "hist": hist, "every": 1, "src": "random"}
+
+
 def _rand_graph_case(rng):
     n = rng.choice((5, 6))
     p = rng.choice((0.15, 0.25, 0.4, 0.6))
@@ -165,8 +187,13 @@ def cases(ctx):
             g = groups[key] = {"kind": "graph", "succ": q["succ"], "len": q["len"], "queries": [], "src": "tlc"}
             out.append(g)
         g["queries"].append([q["start"], q["range"]])
+    for c in ctx.gen("MC_LaneletGeom", "GEN_LaneletGeom_hist3.cfg" if ctx.thorough else "GEN_LaneletGeom_hist.cfg",
+                     timeout=3000):
+        c["src"] = "tlc"
+        out.append(c)
     rng = ctx.rng
     k = 10 if ctx.thorough else 1
+    out += [_rand_hist_case(rng) for _ in range(300 * k)]
     out += [_rand_poly_case(rng) for _ in range(500 * k)]
     out += [_rand_merge_case(rng) for _ in range(200 * k)]
     out += [_rand_chain_case(rng) for _ in range(150 * k)]
@@ -180,6 +207,8 @@ def nontrivial(case):
         return ("poly", t(case["c"]), t(case["l"]), t(case["r"])) if len(case["c"]) >= 3 else None
     if case["kind"] == "merge":
         return ("merge", t(case["a"]["c"]), t(case["b"]["c"]), t(case["a"]["l"]))
+    if case["kind"] == "hist":
+        return ("hist", t(case["base"]["c"]), t(case["base"]["l"]), tuple(case["hist"])) if case["hist"] else None
     if case["kind"] == "chain":
         return ("chain",) + tuple(t(ln["c"]) for ln in case["lanes"]) + (t(case["lanes"][0]["l"]), case["range"])
     if any(case["succ"]):
@@ -262,6 +291,15 @@ def _interp_events(pick, c, le, r, sns, sd, den, sigpref, ev):
         obj = pick(n)
         # integral arc lengths are passed alternately as int and as float (both are real numbers)
         arg = sn // sd if (sn % sd == 0 and n % 2 == 1) else sn / sd
+        if sn == sd * cum[-1]:
+            # "0 <= s <= length": the full length is the lanelet's own length (after a quarter turn it can differ from
+            # the nominal integer by an ulp, and interpolate_position asserts s <= distance[-1])
+            try:
+                own = float(obj.distance[-1])
+                if abs(own - sn / sd) <= 1e-9 and own < sn / sd:
+                    arg = own
+            except Exception:
+                pass
         st, res = _call(lambda: obj.interpolate_position(arg))
         pts = [[0, 0, 0]] * 3
         if st == "ok":
@@ -273,7 +311,8 @@ def _interp_events(pick, c, le, r, sns, sd, den, sigpref, ev):
                     pts.append([kx, ky, ex & ey & int(len(p) == 2)])
             except Exception as ex:
                 st, pts = "exc:result:" + type(ex).__name__, [[0, 0, 0]] * 3
-        ev.append({"op": "interpolate", "sig": sigpref + _shape(sn, sd, cum), "st": st, "c": c, "l": le, "r": r,
+        ev.append({"op": "interpolate", "sig": sigpref + (_shape(sn, sd, cum) if sigpref.endswith("/") else ""),
+                   "st": st, "c": c, "l": le, "r": r,
                    "sn": sn, "sd": sd, "den": den, "res": pts})
 
 
@@ -289,7 +328,7 @@ def _exec_poly(case):
     return ev
 
 
-def _as_lanelet_events(m, tag, ev):
+def _as_lanelet_events(m, tag, ev, what="qall"):
     """A lanelet produced by the library (merge result) is a lanelet: the same distance / interpolate_position
     events as for any lanelet, judged against ITS OWN vertices.  Emitted only when these vertices are integer points
     with positive integer segment lengths (otherwise the spec has no exact oracle; the merge event itself carries
@@ -314,8 +353,19 @@ def _as_lanelet_events(m, tag, ev):
         den = _lcm(den, 2 * h)
     cum = _int_cum(c)
     sns = sorted({2 * v for v in cum} | {2 * cum[k] + hs[k] for k in range(len(hs))})
+    isig = "interpolate/" + tag + ("" if tag.startswith("hist/") else "/")   # history sigs: no arc-length shape
+    if what == "qi":                                   # one interior interpolation only (fills what it fills)
+        _interp_events(lambda n: m, c, le, r, [2 * cum[0] + hs[0]], sd, den, isig, ev)
+        return
     _distance_event(m, c, den, "distance/" + tag, ev)
-    _interp_events(lambda n: m, c, le, r, sns, sd, den, "interpolate/" + tag + "/", ev)
+    if what == "qd":
+        return
+    _interp_events(lambda n: m, c, le, r, sns, sd, den, isig, ev)
+    if tag.startswith("hist/"):
+        # inner_distance is not named by the statement: logged (and its cache exercised), never judged
+        st, d = _call(lambda: [float(v) for v in m.inner_distance])
+        ev.append({"op": "inner_distance", "sig": "inner_distance/" + tag, "st": st, "l": le, "r": r, "den": den,
+                   "res": [list(_grid(v, den)) for v in d] if st == "ok" else []})
 
 
 def _verts(arr):
@@ -386,6 +436,93 @@ def _exec_chain(case):
     return ev
 
 
+# ---- histories: tokens of LaneletGeom.tla (MoveOf / Stretch / SuccLane give them the same meaning there) ----------
+_MOVES = {"mv1": ((1, 2), 1), "mv3": ((-3, 1), 3), "net2": ((2, -1), 2)}      # translation, quarter turns
+_KIND = {"mv1": "move", "mv3": "move", "net2": "netmove", "setc": "set_center", "setl": "set_left",
+         "setr": "set_right", "mrgf": "merge_fwd", "mrgs": "merge_swapped"}
+_QUERIES = ("qd", "qi", "qall")
+
+
+def _stretch(arr):
+    import numpy as np
+    arr = np.array(arr, dtype=float)
+    return 2.0 * arr - arr[0]
+
+
+def _continue(arr):
+    import numpy as np
+    e = np.array(arr[-1], dtype=float)
+    return np.array([e, e + [3.0, 4.0], e + [3.0, 6.0]])
+
+
+def _mutate(cur, net, tok):
+    """apply one mutation token through the public API; returns (status, lanelet under test, network)"""
+    import numpy as np
+    from commonroad.scenario.lanelet import Lanelet, LaneletNetwork
+    if tok in ("mv1", "mv3"):
+        (tx, ty), q = _MOVES[tok]
+        ang = q * math.pi / 2 if q != 3 else -math.pi / 2
+        st, _ = _call(lambda: cur.translate_rotate(np.array([float(tx), float(ty)]), ang))
+        return st, cur, net
+    if tok == "net2":
+        (tx, ty), q = _MOVES[tok]
+        if net is None or net.find_lanelet_by_id(cur.lanelet_id) is not cur:
+            net = LaneletNetwork()
+            net.add_lanelet(cur)
+        st, _ = _call(lambda: net.translate_rotate(np.array([float(tx), float(ty)]), q * math.pi / 2))
+        return st, cur, net
+    if tok == "setc":
+        new = _stretch(cur.center_vertices)
+        st, _ = _call(lambda: setattr(cur, "center_vertices", new))
+        return st, cur, net
+    if tok == "setl":
+        new = _stretch(cur.left_vertices)
+        st, _ = _call(lambda: setattr(cur, "left_vertices", new))
+        return st, cur, net
+    if tok == "setr":
+        new = _stretch(cur.right_vertices)
+        st, _ = _call(lambda: setattr(cur, "right_vertices", new))
+        return st, cur, net
+    # merge with a successor that starts where the lane ends (every polyline continues from its last vertex)
+    b = Lanelet(_continue(cur.left_vertices), _continue(cur.center_vertices), _continue(cur.right_vertices), 2,
+                predecessor=[cur.lanelet_id])
+    st, m = _call(lambda: Lanelet.merge_lanelets(cur, b) if tok == "mrgf" else Lanelet.merge_lanelets(b, cur))
+    return st, (m if st == "ok" else cur), net
+
+
+def _exec_hist(case, every=False):
+    """run the history on ONE lanelet object; query tokens ask what they name, and at the end (every=True: after each
+    mutation) the full query set is asked.  Queries are judged against the lanelet's CURRENT public vertices."""
+    base = case["base"]
+    cur = _lanelet(1, base["l"], base["c"], base["r"])
+    net, ev, last, tainted = None, [], "none", False
+    hist = case["hist"]
+
+    def tag():
+        return "hist/after-" + last + ("+earlier-setter" if tainted else "")
+
+    for k, tok in enumerate(hist):
+        if tok in _QUERIES:
+            _as_lanelet_events(cur, tag(), ev, what=tok)
+            continue
+        if last.startswith("set_"):
+            tainted = True
+        st, cur, net = _mutate(cur, net, tok)
+        last = _KIND[tok]
+        try:
+            vc, ec = _verts(cur.center_vertices)
+            vl, el = _verts(cur.left_vertices)
+            vr, er = _verts(cur.right_vertices)
+        except Exception:
+            vc, vl, vr, ec, el, er = [], [], [], 0, 0, 0
+        ev.append({"op": "mutate", "sig": "mutate/" + last, "st": st, "act": tok, "c": vc, "l": vl, "r": vr,
+                   "ex": ec & el & er})
+        if every and k + 1 < len(hist):
+            _as_lanelet_events(cur, tag(), ev, what="qall")
+    _as_lanelet_events(cur, tag(), ev, what="qall")
+    return ev
+
+
 def _cyclic(succ):
     n = len(succ)
     color = [0] * (n + 1)
@@ -436,12 +573,14 @@ def execute(case):
         return {"ev": _exec_merge(case)}
     if kind == "chain":
         return {"ev": _exec_chain(case)}
+    if kind == "hist":
+        return {"ev": _exec_hist(case, every=bool(case.get("every")))}
     return {"ev": _exec_graph(case)}
 
 
 def corrupt(trace, rng):
     """Corrupt ONE logged result field of one accepted event; the trace spec must reject the trace."""
-    evs = [i for i, e in enumerate(trace["ev"]) if e["st"] == "ok"]
+    evs = [i for i, e in enumerate(trace["ev"]) if e["st"] == "ok" and e["op"] not in ("mutate", "inner_distance")]
     if not evs:
         return None
     e = trace["ev"][rng.choice(evs)]
